@@ -380,6 +380,7 @@ package template
 //@   ensures state: r.state == ite(c.state == stateTag || c.state == stateAfterName, stateAttrName, ite(c.state == stateBeforeValue, stateAttr, c.state))
 //@   ensures delim: r.delim == ite(c.state == stateBeforeValue, delimSpaceOrTagEnd, c.delim)
 //@   ensures frame: same(r.element, c.element) && same(r.attr, c.attr) && same(r.err, c.err) && same(r.scriptType, c.scriptType) && same(r.linkRel, c.linkRel)
+//@   ensures idframe: identical(r.element, c.element) && identical(r.attr, c.attr)
 
 //@ func (e element) String() (r string)
 //@   serves C02 C06
@@ -423,7 +424,10 @@ package template
 //@   requires !isnil(tmpl.nameSpace.set[name]) ==> !isnil(tmpl.nameSpace.set[name].text)
 //@   requires members: forallkey(w, haskeym(tmpl.nameSpace.set, w) ==> !isnil(tmpl.nameSpace.set[w]) && !isnil(tmpl.nameSpace.set[w].text))
 //@   requires owner: tmpl.nameSpace.esc.ns == tmpl.nameSpace
-//@   requires escmaps: !isnil(tmpl.nameSpace.esc.output) && !isnil(tmpl.nameSpace.esc.derived) && !isnil(tmpl.nameSpace.esc.called)
+//@   requires escmaps: ESCMAPS(tmpl.nameSpace.esc)
+//@   requires distinct: EDITMAPSDISTINCT(tmpl.nameSpace.esc)
+//@   requires memowf: MEMOWF(tmpl.nameSpace.esc)
+//@   requires actionnodes: ACTIONNODES()
 //@   requires derivedok: forallkey(w, haskeym(tmpl.nameSpace.esc.derived, w) ==> !isnil(tmpl.nameSpace.esc.derived[w]))
 //@   requires editkeys: forallref(p, haskeym(tmpl.nameSpace.esc.actionNodeEdits, p) || haskeym(tmpl.nameSpace.esc.templateNodeEdits, p) || haskeym(tmpl.nameSpace.esc.textNodeEdits, p) ==> !isnil(p))
 //@   option allocates
@@ -443,7 +447,10 @@ package template
 //@   requires treesync: isnil(t.escapeErr) ==> t.Tree == t.text.Tree
 //@   requires members: forallkey(w, haskeym(t.nameSpace.set, w) ==> !isnil(t.nameSpace.set[w]) && !isnil(t.nameSpace.set[w].text))
 //@   requires owner: t.nameSpace.esc.ns == t.nameSpace
-//@   requires escmaps: !isnil(t.nameSpace.esc.output) && !isnil(t.nameSpace.esc.derived) && !isnil(t.nameSpace.esc.called)
+//@   requires escmaps: ESCMAPS(t.nameSpace.esc)
+//@   requires distinct: EDITMAPSDISTINCT(t.nameSpace.esc)
+//@   requires memowf: MEMOWF(t.nameSpace.esc)
+//@   requires actionnodes: ACTIONNODES()
 //@   requires derivedok: forallkey(w, haskeym(t.nameSpace.esc.derived, w) ==> !isnil(t.nameSpace.esc.derived[w]))
 //@   requires editkeys: forallref(p, haskeym(t.nameSpace.esc.actionNodeEdits, p) || haskeym(t.nameSpace.esc.templateNodeEdits, p) || haskeym(t.nameSpace.esc.textNodeEdits, p) ==> !isnil(p))
 //@   option allocates
@@ -463,7 +470,10 @@ package template
 //@   requires treesync: isnil(t.escapeErr) ==> t.Tree == t.text.Tree
 //@   requires members: forallkey(w, haskeym(t.nameSpace.set, w) ==> !isnil(t.nameSpace.set[w]) && !isnil(t.nameSpace.set[w].text))
 //@   requires owner: t.nameSpace.esc.ns == t.nameSpace
-//@   requires escmaps: !isnil(t.nameSpace.esc.output) && !isnil(t.nameSpace.esc.derived) && !isnil(t.nameSpace.esc.called)
+//@   requires escmaps: ESCMAPS(t.nameSpace.esc)
+//@   requires distinct: EDITMAPSDISTINCT(t.nameSpace.esc)
+//@   requires memowf: MEMOWF(t.nameSpace.esc)
+//@   requires actionnodes: ACTIONNODES()
 //@   requires derivedok: forallkey(w, haskeym(t.nameSpace.esc.derived, w) ==> !isnil(t.nameSpace.esc.derived[w]))
 //@   requires editkeys: forallref(p, haskeym(t.nameSpace.esc.actionNodeEdits, p) || haskeym(t.nameSpace.esc.templateNodeEdits, p) || haskeym(t.nameSpace.esc.textNodeEdits, p) ==> !isnil(p))
 //@   option allocates
@@ -482,7 +492,10 @@ package template
 //@   requires treesync: isnil(t.escapeErr) ==> t.Tree == t.text.Tree
 //@   requires members: forallkey(w, haskeym(t.nameSpace.set, w) ==> !isnil(t.nameSpace.set[w]) && !isnil(t.nameSpace.set[w].text))
 //@   requires owner: t.nameSpace.esc.ns == t.nameSpace
-//@   requires escmaps: !isnil(t.nameSpace.esc.output) && !isnil(t.nameSpace.esc.derived) && !isnil(t.nameSpace.esc.called)
+//@   requires escmaps: ESCMAPS(t.nameSpace.esc)
+//@   requires distinct: EDITMAPSDISTINCT(t.nameSpace.esc)
+//@   requires memowf: MEMOWF(t.nameSpace.esc)
+//@   requires actionnodes: ACTIONNODES()
 //@   requires derivedok: forallkey(w, haskeym(t.nameSpace.esc.derived, w) ==> !isnil(t.nameSpace.esc.derived[w]))
 //@   requires editkeys: forallref(p, haskeym(t.nameSpace.esc.actionNodeEdits, p) || haskeym(t.nameSpace.esc.templateNodeEdits, p) || haskeym(t.nameSpace.esc.textNodeEdits, p) ==> !isnil(p))
 //@   option allocates
@@ -499,7 +512,10 @@ package template
 //@   requires insync: !isnil(t.nameSpace.set[name]) ==> !isnil(ttlookup(t.text, name))
 //@   requires members: forallkey(w, haskeym(t.nameSpace.set, w) ==> !isnil(t.nameSpace.set[w]) && !isnil(t.nameSpace.set[w].text))
 //@   requires owner: t.nameSpace.esc.ns == t.nameSpace
-//@   requires escmaps: !isnil(t.nameSpace.esc.output) && !isnil(t.nameSpace.esc.derived) && !isnil(t.nameSpace.esc.called)
+//@   requires escmaps: ESCMAPS(t.nameSpace.esc)
+//@   requires distinct: EDITMAPSDISTINCT(t.nameSpace.esc)
+//@   requires memowf: MEMOWF(t.nameSpace.esc)
+//@   requires actionnodes: ACTIONNODES()
 //@   requires derivedok: forallkey(w, haskeym(t.nameSpace.esc.derived, w) ==> !isnil(t.nameSpace.esc.derived[w]))
 //@   requires editkeys: forallref(p, haskeym(t.nameSpace.esc.actionNodeEdits, p) || haskeym(t.nameSpace.esc.templateNodeEdits, p) || haskeym(t.nameSpace.esc.textNodeEdits, p) ==> !isnil(p))
 //@   option allocates
@@ -518,7 +534,10 @@ package template
 //@   requires insync: !isnil(t.nameSpace.set[name]) ==> !isnil(ttlookup(t.text, name))
 //@   requires members: forallkey(w, haskeym(t.nameSpace.set, w) ==> !isnil(t.nameSpace.set[w]) && !isnil(t.nameSpace.set[w].text))
 //@   requires owner: t.nameSpace.esc.ns == t.nameSpace
-//@   requires escmaps: !isnil(t.nameSpace.esc.output) && !isnil(t.nameSpace.esc.derived) && !isnil(t.nameSpace.esc.called)
+//@   requires escmaps: ESCMAPS(t.nameSpace.esc)
+//@   requires distinct: EDITMAPSDISTINCT(t.nameSpace.esc)
+//@   requires memowf: MEMOWF(t.nameSpace.esc)
+//@   requires actionnodes: ACTIONNODES()
 //@   requires derivedok: forallkey(w, haskeym(t.nameSpace.esc.derived, w) ==> !isnil(t.nameSpace.esc.derived[w]))
 //@   requires editkeys: forallref(p, haskeym(t.nameSpace.esc.actionNodeEdits, p) || haskeym(t.nameSpace.esc.templateNodeEdits, p) || haskeym(t.nameSpace.esc.textNodeEdits, p) ==> !isnil(p))
 //@   option allocates
@@ -534,7 +553,10 @@ package template
 //@   requires insync: !isnil(t.nameSpace.set[name]) ==> !isnil(ttlookup(t.text, name))
 //@   requires members: forallkey(w, haskeym(t.nameSpace.set, w) ==> !isnil(t.nameSpace.set[w]) && !isnil(t.nameSpace.set[w].text))
 //@   requires owner: t.nameSpace.esc.ns == t.nameSpace
-//@   requires escmaps: !isnil(t.nameSpace.esc.output) && !isnil(t.nameSpace.esc.derived) && !isnil(t.nameSpace.esc.called)
+//@   requires escmaps: ESCMAPS(t.nameSpace.esc)
+//@   requires distinct: EDITMAPSDISTINCT(t.nameSpace.esc)
+//@   requires memowf: MEMOWF(t.nameSpace.esc)
+//@   requires actionnodes: ACTIONNODES()
 //@   requires derivedok: forallkey(w, haskeym(t.nameSpace.esc.derived, w) ==> !isnil(t.nameSpace.esc.derived[w]))
 //@   requires editkeys: forallref(p, haskeym(t.nameSpace.esc.actionNodeEdits, p) || haskeym(t.nameSpace.esc.templateNodeEdits, p) || haskeym(t.nameSpace.esc.textNodeEdits, p) ==> !isnil(p))
 //@   option allocates
@@ -594,8 +616,10 @@ package template
 //@   ensures keepb: forall(k, 0, len(bNames), exists(j, 0, len(r), seq(at(r, j)) == seq(at(bNames, k))))
 //@   ensures heada: aName != bName ==> exists(j, 0, len(r), sameview(at(r, j), aName))
 //@   ensures headb: aName != bName ==> exists(j, 0, len(r), sameview(at(r, j), bName))
+//@   ensures scratchonly: onlyfresh("map[seq]bool#dom map[seq]bool#val")
 //@   loop 1
-//@     invariant !isnil(aNamesSet)
+//@     invariant !isnil(aNamesSet) && fresh(aNamesSet)
+//@     invariant scratch: onlyfresh("map[seq]bool#dom map[seq]bool#val")
 //@     invariant len(ret) == ite(aName != bName, 2, 0) + rangeidx
 //@     invariant aName != bName ==> sameview(at(ret, 0), aName) && sameview(at(ret, 1), bName)
 //@     invariant forall(k, 0, rangeidx, sameview(at(ret, ite(aName != bName, 2, 0) + k), at(aNames, k)))
@@ -630,6 +654,7 @@ package template
 //@   ensures carried: a.state != stateError && b.state != stateError && r.state != stateError && (a.attr.ambiguousValue || b.attr.ambiguousValue) ==> r.attr.ambiguousValue
 //@   ensures wfout: WF(a) && WF(b) ==> WF(r)
 //@   ensures errcarries: r.state == stateError ==> !isnil(r.err) || a.state == stateError || b.state == stateError
+//@   ensures scratchonly: onlyfresh("map[seq]bool#dom map[seq]bool#val")
 
 //@ func isComment(s state) (r bool)
 //@   serves C01 C08
@@ -719,6 +744,8 @@ package template
 //@   ensures owner: r.ns == n
 //@   ensures freshmaps: fresh(r.output) && fresh(r.derived) && fresh(r.called) && fresh(r.actionNodeEdits) && fresh(r.templateNodeEdits) && fresh(r.textNodeEdits)
 //@   ensures empty: forallkey(w, !haskeym(r.output, w) && !haskeym(r.derived, w) && !haskeym(r.called, w))
+//@   ensures noedits: forallref(p, !haskeym(r.actionNodeEdits, p) && !haskeym(r.templateNodeEdits, p) && !haskeym(r.textNodeEdits, p))
+//@   ensures distinct: EDITMAPSDISTINCT(r)
 
 //@ func (e *escaper) arbitraryTemplate() (r *Template)
 //@   serves C06 C08
@@ -754,17 +781,24 @@ package template
 //@   option nopanic
 //@   option modifies @ANALYSISMAPS @DERIVEDTREES
 //@   ensures treesfresh: onlyfresh("TT_Template.Tree parse_Tree.Name#b parse_Tree.Name#o parse_Tree.Name#l")
-//@   requires !isnil(e.ns) && !isnil(e.ns.set)
-//@   requires escmaps: !isnil(e.output) && !isnil(e.derived) && !isnil(e.called)
+//@   requires nsok: !isnil(e.ns) && !isnil(e.ns.set)
+//@   requires escmaps: ESCMAPS(e)
+//@   requires distinct: EDITMAPSDISTINCT(e)
+//@   requires members: MEMBERS(e.ns)
+//@   requires derivedok: DERIVEDOK(e)
+//@   requires editkeys: EDITKEYS(e)
+//@   requires memowf: MEMOWF(e)
+//@   requires wf: WF(c)
+//@   requires actionnodes: ACTIONNODES()
 //@   ensures escmaps: !isnil(e.output) && !isnil(e.derived) && !isnil(e.called)
-//@   requires members: forallkey(w, haskeym(e.ns.set, w) ==> !isnil(e.ns.set[w]) && !isnil(e.ns.set[w].text))
-//@   requires derivedok: forallkey(w, haskeym(e.derived, w) ==> !isnil(e.derived[w]))
-//@   requires editkeys: forallref(p, haskeym(e.actionNodeEdits, p) || haskeym(e.templateNodeEdits, p) || haskeym(e.textNodeEdits, p) ==> !isnil(p))
 //@   ensures named: c.state == stateText ==> sameview(dname, name)
 //@   ensures memoised: old(haskeym(e.output, dname)) && !isnil(esctemplate(e.ns, name)) && !isnil(old(asref(esctemplate(e.ns, name), "TT_Template").Tree)) ==> identical(r, old(e.output[dname]))
 //@   ensures failedcallee: isnil(esctemplate(e.ns, name)) || isnil(old(asref(esctemplate(e.ns, name), "TT_Template").Tree)) ==> r.state == stateError && !isnil(r.err)
 //@   ensures derivedok: forallkey(w, haskeym(e.derived, w) ==> !isnil(e.derived[w]))
 //@   ensures editkeys: forallref(p, haskeym(e.actionNodeEdits, p) || haskeym(e.templateNodeEdits, p) || haskeym(e.textNodeEdits, p) ==> !isnil(p))
+//@   ensures wfout: WF(c) && old(MEMOWF(e)) ==> WF(r)
+//@   ensures memowf: WF(c) && old(MEMOWF(e)) ==> MEMOWF(e)
+//@   ensures onlymaps: ONLYMAPS(e)
 
 //@ func (e *escaper) escapeAction(c context, n *parse.ActionNode) (r context)
 //@   serves C01 C02 C04 C08
@@ -780,6 +814,9 @@ package template
 //@   ensures recorded: len(n.Pipe.Decl) == 0 && r.state != stateError ==> haskeym(e.actionNodeEdits, n)
 //@   ensures failedrecordsnothing: len(n.Pipe.Decl) != 0 || r.state == stateError ==> forallref(p, haskeym(e.actionNodeEdits, p) == old(haskeym(e.actionNodeEdits, p)))
 //@   ensures errcarries: r.state == stateError && c.state != stateError ==> !isnil(r.err)
+//@   ensures wfout: WF(c) ==> WF(r)
+//@   ensures editkeys: old(EDITKEYS(e)) && EDITMAPSDISTINCT(e) ==> EDITKEYS(e)
+//@   ensures onlymaps: onlyobjects("map[int]opaque#dom map[int]opaque#val", e.actionNodeEdits)
 //@   demonstrates C02-url-split-over-actions context_forgets_dynamic_prefix: len(n.Pipe.Decl) == 0 && r.state != stateError ==> seqeq(r.attr.value, c.attr.value) && r.attr.ambiguousValue == c.attr.ambiguousValue
 
 //@ func (e *escaper) editActionNode(n *parse.ActionNode, cmds []string) ()
@@ -797,10 +834,24 @@ package template
 //@   option allocates
 //@   option modifies @ANALYSISMAPS @DERIVEDTREES
 //@   requires !isnil(n)
+//@   requires nsok: !isnil(e.ns) && !isnil(e.ns.set)
+//@   requires escmaps: ESCMAPS(e)
+//@   requires distinct: EDITMAPSDISTINCT(e)
+//@   requires members: MEMBERS(e.ns)
+//@   requires derivedok: DERIVEDOK(e)
+//@   requires editkeys: EDITKEYS(e)
+//@   requires memowf: MEMOWF(e)
+//@   requires wf: WF(c)
+//@   requires actionnodes: ACTIONNODES()
 //@   defines identical(r, namedlike(r, "escbranch", c, n, nodeName))
-//@   requires escmaps: !isnil(e.output) && !isnil(e.derived) && !isnil(e.called) && !isnil(e.actionNodeEdits) && !isnil(e.templateNodeEdits) && !isnil(e.textNodeEdits)
 //@   ensures reentry: nodeName == "range" && r.state != stateError ==> nudgest(namedlike(c, "esclist", c, n.List).state) == nudgest(namedlike(c, "esclist", namedlike(c, "esclist", c, n.List), n.List).state) && nudgedl(namedlike(c, "esclist", c, n.List).state, namedlike(c, "esclist", c, n.List).delim) == nudgedl(namedlike(c, "esclist", namedlike(c, "esclist", c, n.List), n.List).state, namedlike(c, "esclist", namedlike(c, "esclist", c, n.List), n.List).delim)
 //@   ensures branches: r.state != stateError ==> nudgest(namedlike(c, "esclist", c, n.List).state) == nudgest(namedlike(c, "esclist", c, n.ElseList).state) && nudgedl(namedlike(c, "esclist", c, n.List).state, namedlike(c, "esclist", c, n.List).delim) == nudgedl(namedlike(c, "esclist", c, n.ElseList).state, namedlike(c, "esclist", c, n.ElseList).delim)
+//@   ensures wfout: WF(c) && old(MEMOWF(e)) ==> WF(r)
+//@   ensures memowf: WF(c) && old(MEMOWF(e)) ==> MEMOWF(e)
+//@   ensures onlymaps: ONLYMAPS(e)
+//@   ensures treesfresh: TREESFRESH()
+//@   ensures derivedok: old(DERIVEDOK(e)) ==> DERIVEDOK(e)
+//@   ensures editkeys: old(EDITKEYS(e)) && EDITMAPSDISTINCT(e) ==> EDITKEYS(e)
 
 //@ func (e *escaper) computeOutCtx(c context, t *template.Template) (r context)
 //@   serves C05 C08
@@ -809,6 +860,15 @@ package template
 //@   option modifies @ANALYSISMAPS @DERIVEDTREES
 //@   option casesplit true
 //@   requires !isnil(t)
+//@   requires nsok: !isnil(e.ns) && !isnil(e.ns.set)
+//@   requires escmaps: ESCMAPS(e)
+//@   requires distinct: EDITMAPSDISTINCT(e)
+//@   requires members: MEMBERS(e.ns)
+//@   requires derivedok: DERIVEDOK(e)
+//@   requires editkeys: EDITKEYS(e)
+//@   requires memowf: MEMOWF(e)
+//@   requires wf: WF(c)
+//@   requires actionnodes: ACTIONNODES()
 //@   ensures fixpoint: r.state != stateError ==> namedlike(true, "etbok", c, c, t) || namedlike(true, "etbok", c, namedlike(c, "etb", c, c, t), t)
 //@   ensures first: namedlike(true, "etbok", c, c, t) ==> identical(r, namedlike(c, "etb", c, c, t))
 //@   ensures second: !namedlike(true, "etbok", c, c, t) && r.state != stateError ==> identical(r, namedlike(c, "etb", c, namedlike(c, "etb", c, c, t), t))
@@ -817,6 +877,9 @@ package template
 //@   ensures derivedok: forallkey(w, haskeym(e.derived, w) ==> !isnil(e.derived[w]))
 //@   ensures editkeys: forallref(p, haskeym(e.actionNodeEdits, p) || haskeym(e.templateNodeEdits, p) || haskeym(e.textNodeEdits, p) ==> !isnil(p))
 //@   ensures escmaps: !isnil(e.output) && !isnil(e.derived) && !isnil(e.called)
+//@   ensures wfout: WF(c) && old(MEMOWF(e)) ==> WF(r)
+//@   ensures memowf: WF(c) && old(MEMOWF(e)) ==> MEMOWF(e)
+//@   ensures onlymaps: ONLYMAPS(e)
 
 //@ func (e *escaper) editTemplateNode(n *parse.TemplateNode, callee string) ()
 //@   serves C06 C08
@@ -841,12 +904,43 @@ package template
 //@   option embedded nameSpace.esc
 //@   option allocates
 //@   option modifies @ANALYSISMAPS @DERIVEDTREES
-//@   requires escmaps: !isnil(e.output) && !isnil(e.derived) && !isnil(e.called) && !isnil(e.actionNodeEdits) && !isnil(e.templateNodeEdits) && !isnil(e.textNodeEdits)
+//@   requires nsok: !isnil(e.ns) && !isnil(e.ns.set)
+//@   requires escmaps: ESCMAPS(e)
+//@   requires distinct: EDITMAPSDISTINCT(e)
+//@   requires members: MEMBERS(e.ns)
+//@   requires derivedok: DERIVEDOK(e)
+//@   requires editkeys: EDITKEYS(e)
+//@   requires memowf: MEMOWF(e)
+//@   requires wf: WF(c)
+//@   requires actionnodes: ACTIONNODES()
 //@   ensures named: identical(r, namedlike(r, "esclist", c, n))
 //@   ensures rejected: !ok ==> onlyfresh("map[seq]box:context#dom map[seq]box:context#val map[seq]ref:TT_Template#dom map[seq]ref:TT_Template#val map[seq]bool#dom map[seq]bool#val map[int]opaque#dom map[int]opaque#val")
-//@   ensures treesfresh: onlyfresh("TT_Template.Tree parse_Tree.Name#b parse_Tree.Name#o parse_Tree.Name#l")
+//@   ensures treesfresh: TREESFRESH()
+//@   ensures onlymaps: ONLYMAPS(e)
+//@   ensures wfout: old(WF(c)) && old(MEMOWF(e)) ==> WF(r)
+//@   ensures memowf: old(WF(c)) && old(MEMOWF(e)) ==> MEMOWF(e)
+//@   ensures derivedok: old(DERIVEDOK(e)) ==> DERIVEDOK(e)
+//@   ensures editkeys: old(EDITKEYS(e)) ==> EDITKEYS(e)
 //@   loop 1
 //@     invariant copyintofresh: onlyfresh("map[seq]box:context#dom map[seq]box:context#val")
+//@     invariant trialmemo: old(MEMOWF(e)) ==> MEMOWF(e1)
+//@   loop 2
+//@     invariant only2: onlyobjects("map[seq]box:context#dom map[seq]box:context#val", e.output)
+//@     invariant memo2: old(WF(c)) && old(MEMOWF(e)) ==> MEMOWF(e) && MEMOWF(e1)
+//@   loop 3
+//@     invariant only3: onlyobjects("map[seq]ref:TT_Template#dom map[seq]ref:TT_Template#val", e.derived)
+//@     invariant derived3: DERIVEDOK(e1) && (old(DERIVEDOK(e)) ==> DERIVEDOK(e))
+//@   loop 4
+//@     invariant only4: onlyobjects("map[seq]bool#dom map[seq]bool#val", e.called)
+//@   loop 5
+//@     invariant only5: onlyobjects("map[int]opaque#dom map[int]opaque#val", e.actionNodeEdits)
+//@     invariant keys5: EDITKEYS(e1) && (old(EDITKEYS(e)) ==> EDITKEYS(e))
+//@   loop 6
+//@     invariant only6: onlyobjects("map[int]opaque#dom map[int]opaque#val", e.actionNodeEdits, e.templateNodeEdits)
+//@     invariant keys6: EDITKEYS(e1) && (old(EDITKEYS(e)) ==> EDITKEYS(e))
+//@   loop 7
+//@     invariant only7: onlyobjects("map[int]opaque#dom map[int]opaque#val", e.actionNodeEdits, e.templateNodeEdits, e.textNodeEdits)
+//@     invariant keys7: EDITKEYS(e1) && (old(EDITKEYS(e)) ==> EDITKEYS(e))
 
 //@ func (e *escaper) escapeTemplate(c context, n *parse.TemplateNode) (r context)
 //@   serves C05 C06 C08
@@ -854,10 +948,21 @@ package template
 //@   option allocates
 //@   option modifies @ANALYSISMAPS @DERIVEDTREES
 //@   requires !isnil(n) && !isnil(e.ns) && !isnil(e.ns.set) && !isnil(e.templateNodeEdits)
-//@   requires escmaps: !isnil(e.output) && !isnil(e.derived) && !isnil(e.called)
-//@   requires members: forallkey(w, haskeym(e.ns.set, w) ==> !isnil(e.ns.set[w]) && !isnil(e.ns.set[w].text))
-//@   requires derivedok: forallkey(w, haskeym(e.derived, w) ==> !isnil(e.derived[w]))
-//@   requires editkeys: forallref(p, haskeym(e.actionNodeEdits, p) || haskeym(e.templateNodeEdits, p) || haskeym(e.textNodeEdits, p) ==> !isnil(p))
+//@   requires nsok: !isnil(e.ns) && !isnil(e.ns.set)
+//@   requires escmaps: ESCMAPS(e)
+//@   requires distinct: EDITMAPSDISTINCT(e)
+//@   requires members: MEMBERS(e.ns)
+//@   requires derivedok: DERIVEDOK(e)
+//@   requires editkeys: EDITKEYS(e)
+//@   requires memowf: MEMOWF(e)
+//@   requires wf: WF(c)
+//@   requires actionnodes: ACTIONNODES()
+//@   ensures wfout: WF(c) && old(MEMOWF(e)) ==> WF(r)
+//@   ensures memowf: WF(c) && old(MEMOWF(e)) ==> MEMOWF(e)
+//@   ensures onlymaps: ONLYMAPS(e)
+//@   ensures treesfresh: TREESFRESH()
+//@   ensures derivedok: DERIVEDOK(e)
+//@   ensures editkeys: EDITKEYS(e)
 
 //@ func (e *escaper) escape(c context, n parse.Node) (r context)
 //@   serves C05 C08 C01
@@ -866,13 +971,51 @@ package template
 //@   option nopanic
 //@   option modifies @ANALYSISMAPS @DERIVEDTREES
 //@   requires !isnil(e.ns) && !isnil(e.ns.set)
-//@   requires escmaps: !isnil(e.output) && !isnil(e.derived) && !isnil(e.called) && !isnil(e.actionNodeEdits) && !isnil(e.templateNodeEdits) && !isnil(e.textNodeEdits)
-//@   requires members: forallkey(w, haskeym(e.ns.set, w) ==> !isnil(e.ns.set[w]) && !isnil(e.ns.set[w].text))
-//@   requires derivedok: forallkey(w, haskeym(e.derived, w) ==> !isnil(e.derived[w]))
-//@   requires editkeys: forallref(p, haskeym(e.actionNodeEdits, p) || haskeym(e.templateNodeEdits, p) || haskeym(e.textNodeEdits, p) ==> !isnil(p))
-//@   requires wf: c.state <= stateError && c.delim <= delimSpaceOrTagEnd && (c.delim != delimNone ==> c.state == stateAttr) && (c.state == stateText ==> !isspecial(c.element.name))
-//@   requires actionnodes: forallref(p, !isnil(p) ==> !isnil(asref(p, "parse_ActionNode").Pipe) && forall(k, 0, len(asref(p, "parse_ActionNode").Pipe.Cmds), !isnil(at(asref(p, "parse_ActionNode").Pipe.Cmds, k)) && len(at(asref(p, "parse_ActionNode").Pipe.Cmds, k).Args) > 0))
+//@   requires escmaps: ESCMAPS(e)
+//@   requires distinct: EDITMAPSDISTINCT(e)
+//@   requires members: MEMBERS(e.ns)
+//@   requires derivedok: DERIVEDOK(e)
+//@   requires editkeys: EDITKEYS(e)
+//@   requires memowf: MEMOWF(e)
+//@   requires wf: WF(c)
+//@   requires actionnodes: ACTIONNODES()
 //@   ensures unknownkind: isnil(n) ==> r.state == stateError && !isnil(r.err)
 //@   ensures ranges: dyntypeis(n, "parse_RangeNode") ==> identical(r, namedlike(c, "escbranch", c, asref(n, "parse_RangeNode").BranchNode, "range"))
 //@   ensures ifs: dyntypeis(n, "parse_IfNode") ==> identical(r, namedlike(c, "escbranch", c, asref(n, "parse_IfNode").BranchNode, "if"))
 //@   ensures withs: dyntypeis(n, "parse_WithNode") ==> identical(r, namedlike(c, "escbranch", c, asref(n, "parse_WithNode").BranchNode, "with"))
+//@   ensures wfout: WF(r)
+//@   ensures memowf: MEMOWF(e)
+//@   ensures derivedok: DERIVEDOK(e)
+//@   ensures editkeys: EDITKEYS(e)
+//@   ensures onlymaps: ONLYMAPS(e)
+//@   ensures treesfresh: TREESFRESH()
+//@ func (e *escaper) escapeList(c context, n *parse.ListNode) (r context)
+//@   serves C05 C06 C08
+//@   option embedded nameSpace.esc
+//@   option allocates
+//@   option nopanic
+//@   option termination unchecked
+//@   option modifies @ANALYSISMAPS @DERIVEDTREES
+//@   requires !isnil(e.ns) && !isnil(e.ns.set)
+//@   requires escmaps: ESCMAPS(e)
+//@   requires distinct: EDITMAPSDISTINCT(e)
+//@   requires members: MEMBERS(e.ns)
+//@   requires derivedok: DERIVEDOK(e)
+//@   requires editkeys: EDITKEYS(e)
+//@   requires memowf: MEMOWF(e)
+//@   requires wf: WF(c)
+//@   requires actionnodes: ACTIONNODES()
+//@   defines identical(r, namedlike(r, "esclist", c, n))
+//@   ensures wfout: WF(r)
+//@   ensures memowf: MEMOWF(e)
+//@   ensures derivedok: DERIVEDOK(e)
+//@   ensures editkeys: EDITKEYS(e)
+//@   ensures onlymaps: ONLYMAPS(e)
+//@   ensures treesfresh: TREESFRESH()
+//@   loop 1
+//@     invariant wf: WF(c)
+//@     invariant memowf: MEMOWF(e)
+//@     invariant derivedok: DERIVEDOK(e)
+//@     invariant editkeys: EDITKEYS(e)
+//@     invariant onlymaps: ONLYMAPS(e)
+//@     invariant treesfresh: TREESFRESH()
